@@ -47,6 +47,30 @@ Proof. destruct a, b; cbn; split; intros H; try discriminate; try reflexivity;
   try (apply Nat.eqb_eq in H; subst; reflexivity); try (inversion H; subst; apply Nat.eqb_refl). Qed.
 Definition is_noise_key (k : key) : bool := match k with KyN _ => true | _ => false end.
 
+(* keywords understood by Superposition.select and the views it returns *)
+Inductive selkey := SkSuper | SkTime | SkIvp | SkLaplace | SkNoise | SkTransient.
+Inductive view := VwSelf | VwTime | VwLaplace | VwNoise | VwTransient.
+(* Netlist._analysis_groups: how the transform groups of the sources become analyses *)
+Inductive amode := AIvp | ATime | AGeneral.
+Inductive agroup := AgIvp | AgTime | AgKind (g : group).
+Definition agroup_eqb (a b : agroup) : bool :=
+  match a, b with
+  | AgIvp, AgIvp | AgTime, AgTime => true
+  | AgKind g, AgKind h => group_eqb g h
+  | _, _ => false end.
+Definition select_view (k : selkey) : view :=
+  match k with SkSuper => VwSelf | SkTime => VwTime | SkIvp | SkLaplace => VwLaplace | SkNoise => VwNoise | SkTransient => VwTransient end.
+(* an initial value problem merges every non-noise group into 'ivp' and ignores noise; a circuit without
+   reactive components merges them into 'time' and keeps the noise groups; otherwise the transform groups *)
+Definition agroup_of (m : amode) (g : group) : option agroup :=
+  match m, g with
+  | AIvp, GN _ => None
+  | AIvp, _ => Some AgIvp
+  | ATime, GN i => Some (AgKind (GN i))
+  | ATime, _ => Some AgTime
+  | AGeneral, g => Some (AgKind g)
+  end.
+
 Section Sup.
 Variable K : fld.
 Add Field KFsup : (fth K).
@@ -315,6 +339,76 @@ Proof.
     - intros t. unfold gof, dkey. destruct (tkey t); try reflexivity. destruct (tcls t); reflexivity. }
   split; apply E. Qed.
 
+(* ---- analysis groups (Netlist._analysis_groups) and views (Superposition.select) --------------- *)
+Definition view_t (v : view) (s : sig) : K :=
+  match v with VwSelf | VwTime | VwLaplace => time s | VwTransient => part_transient s | VwNoise => f0 end.
+Definition view_s (v : view) (s : sig) : K :=
+  match v with VwSelf | VwTime | VwLaplace => laplace s | VwTransient => part_transient_s s | VwNoise => f0 end.
+(* value the analysis group uses for the source: the whole signal for 'ivp' (laplace()) and 'time' (time()) *)
+Definition aselect_t (a : agroup) (s : sig) : K := match a with AgIvp | AgTime => time s | AgKind g => select_t g s end.
+Definition aselect_s (a : agroup) (s : sig) : K := match a with AgIvp | AgTime => laplace s | AgKind g => select_s g s end.
+Definition agroups (m : amode) (s : sig) : list agroup :=
+  match m with
+  | AGeneral => map AgKind (kinds_tr s)
+  | AIvp => match signal s with [] => [] | _ => [AgIvp] end
+  | ATime => match signal s with [] => [] | _ => [AgTime] end
+  end.
+Fixpoint sum_agroups (h : agroup -> K) (l : list agroup) : K :=
+  match l with [] => f0 | a :: l' => fadd (h a) (sum_agroups h l') end.
+
+Lemma dedup_In {A} (eqb : A -> A -> bool) (H : forall a b, eqb a b = true <-> a = b) (x : A) l : In x (dedup eqb l) <-> In x l.
+Proof. induction l as [|a l IH]; cbn [dedup]; [tauto|]. split.
+  - intros [->|Hi]; [left; reflexivity|]. apply filter_In in Hi. right. apply IH. exact (proj1 Hi).
+  - intros [->|Hi]; [left; reflexivity|]. destruct (eqb a x) eqn:E.
+    + apply H in E. left. exact E.
+    + right. apply filter_In. split; [apply IH; exact Hi | rewrite E; reflexivity]. Qed.
+Lemma kinds_tr_In g s : In g (kinds_tr s) <-> exists t, In t (signal s) /\ gof t = g.
+Proof. unfold kinds_tr. rewrite (dedup_In group_eqb group_eqb_eq). rewrite in_map_iff. split; intros [t [A B]]; exists t; tauto. Qed.
+Lemma kinds_tr_no_noise g s : In g (kinds_tr s) -> match g with GN _ => False | _ => True end.
+Proof. intros H. apply kinds_tr_In in H. destruct H as [t [Ht <-]]. unfold signal in Ht. apply filter_In in Ht. destruct Ht as [_ Hn].
+  unfold gof, dkey. destruct (tkey t); cbn in *; try exact I; try discriminate. destruct (tcls t); exact I. Qed.
+(* the listed analysis groups are exactly the images of the signal's transform groups *)
+Theorem agroups_spec m s a : In a (agroups m s) <-> exists g, In g (kinds_tr s) /\ agroup_of m g = Some a.
+Proof.
+  assert (Hne : forall t l, signal s = t :: l -> In (gof t) (kinds_tr s)).
+  { intros t l E. apply kinds_tr_In. exists t. split; [rewrite E; left; reflexivity | reflexivity]. }
+  assert (Hemp : signal s = [] -> kinds_tr s = []).
+  { intros E. unfold kinds_tr. rewrite E. reflexivity. }
+  destruct m; cbn [agroups].
+  - destruct (signal s) as [|t l] eqn:E.
+    + rewrite (Hemp eq_refl). split; [intros [] | intros [g [[] _]]].
+    + split.
+      * intros [<-|[]]. exists (gof t). split; [apply (Hne t l eq_refl)|].
+        pose proof (kinds_tr_no_noise _ _ (Hne t l eq_refl)) as Hn. destruct (gof t); try reflexivity. contradiction.
+      * intros [g [Hg Ha]]. pose proof (kinds_tr_no_noise _ _ Hg) as Hn. destruct g; cbn in Ha; try contradiction; inversion Ha; left; reflexivity.
+  - destruct (signal s) as [|t l] eqn:E.
+    + rewrite (Hemp eq_refl). split; [intros [] | intros [g [[] _]]].
+    + split.
+      * intros [<-|[]]. exists (gof t). split; [apply (Hne t l eq_refl)|].
+        pose proof (kinds_tr_no_noise _ _ (Hne t l eq_refl)) as Hn. destruct (gof t); try reflexivity. contradiction.
+      * intros [g [Hg Ha]]. pose proof (kinds_tr_no_noise _ _ Hg) as Hn. destruct g; cbn in Ha; try contradiction; inversion Ha; left; reflexivity.
+  - rewrite in_map_iff. split.
+    + intros [g [<- Hg]]. exists g. split; [exact Hg | reflexivity].
+    + intros [g [Hg Ha]]. cbn in Ha. inversion Ha. exists g. split; [reflexivity | exact Hg].
+Qed.
+(* whatever the mode, the values the analyses use add up to the source value: the 'ivp' and 'time'
+   shortcuts select the same total as the per-kind analyses *)
+Theorem analysis_groups_cover m s :
+  time s = sum_agroups (fun a => aselect_t a s) (agroups m s) /\
+  laplace s = sum_agroups (fun a => aselect_s a s) (agroups m s).
+Proof.
+  destruct m; cbn [agroups].
+  - destruct (signal s) eqn:E; cbn [sum_agroups aselect_t aselect_s]; [unfold time, laplace; rewrite E; cbn; split; ring | split; ring].
+  - destruct (signal s) eqn:E; cbn [sum_agroups aselect_t aselect_s]; [unfold time, laplace; rewrite E; cbn; split; ring | split; ring].
+  - destruct (groups_cover s) as [Ht Hs]. rewrite Ht, Hs. generalize (kinds_tr s) as gs.
+    induction gs as [|g gs [IH1 IH2]]; cbn [map sum_over sum_agroups aselect_t aselect_s]; [split; reflexivity|]. rewrite IH1, IH2. split; reflexivity.
+Qed.
+(* views: 'time' -> time(), 'ivp'/'laplace' -> laplace(), 'transient' -> the transient part; the whole
+   signal is the dc + ac + transient views *)
+Theorem view_whole k s : select_view k = VwTime \/ select_view k = VwLaplace \/ select_view k = VwSelf ->
+  view_t (select_view k) s = time s /\ view_s (select_view k) s = laplace s.
+Proof. intros [H|[H|H]]; rewrite H; split; reflexivity. Qed.
+
 (* ---- noise ---------------------------------------------------------------------- *)
 (* a noise value: identifier and (complex) amplitude; nsq = |.|^2 *)
 Variable nsq : K -> K.
@@ -470,6 +564,7 @@ Arguments add {K}. Arguments add_all {K}. Arguments dkey {K}. Arguments dterm {K
 Arguments sumw {K}. Arguments at_key {K}. Arguments tval {K}. Arguments sval {K}. Arguments signal {K}.
 Arguments time {K}. Arguments laplace {K}. Arguments part_dc {K}. Arguments part_ac {K}. Arguments part_transient {K}.
 Arguments part_dc_s {K}. Arguments part_ac_s {K}. Arguments part_transient_s {K}. Arguments phasor_re {K}. Arguments phasor_im {K}.
+Arguments view_t {K}. Arguments view_s {K}. Arguments aselect_t {K}. Arguments aselect_s {K}. Arguments agroups {K}. Arguments sum_agroups {K}.
 Arguments gof {K}. Arguments select_t {K}. Arguments select_s {K}. Arguments kinds_tr {K}. Arguments ac_ws {K}.
 Arguments namp {K}. Arguments nlookup {K}. Arguments add_noise {K}. Arguments nstore {K}. Arguments total_power {K}.
 Arguments power_sum {K}. Arguments noise_power {K}. Arguments sig K : clear implicits. Arguments term K : clear implicits.
